@@ -1,4 +1,5 @@
 import Proofs.Small
+import Proofs.Resolve
 /-! C07 — webentity network. Proved so far about the aggregation itself: adding a page link of weight `w`
     to a row adds exactly `w` to that row's total and keeps one entry per target webentity. That the id
     carried down by `dfs_with_webentity_iter` is the page's resolution is under construction
@@ -11,5 +12,20 @@ theorem C07_counter_total (d : List (Nat × Nat)) (k w : Nat) :
 
 theorem C07_one_entry_per_target (d : List (Nat × Nat)) (k w : Nat) (h : (d.map (·.1)).Nodup) :
     ((counterAdd d k w).map (·.1)).Nodup := counterAdd_keys_nodup d k w h
+
+/-- the id carried down by `dfs_with_webentity_iter` to a block IS the resolution of that block's LRU
+    (what `retrieve_webentity` answers), for every block of the index -/
+theorem C07_carried_is_resolution {s : State} {t : T} (h : Shape s t) (stems : LRU) (hne : stems ≠ []) (b : Nat)
+    (hb : (stems, b) ∈ t.entries s []) : ∃ w, (b, w) ∈ s.dfsWe ∧ w = (s.followLru stems).2.we :=
+  Traph.C07_carried_is_resolution h stems hne b hb
+
+/-- each block is met once, with one id -/
+theorem C07_carried_unique {s : State} {t : T} (h : Shape s t) {b w₁ w₂ : Nat}
+    (h₁ : (b, w₁) ∈ s.dfsWe) (h₂ : (b, w₂) ∈ s.dfsWe) : w₁ = w₂ := Traph.C07_carried_unique h h₁ h₂
+
+/-- and nothing else is met: every (block, id) pair of the traversal is a block of the map with its resolution -/
+theorem C07_carried_sound {s : State} {t : T} (h : Shape s t) {b w : Nat} (hm : (b, w) ∈ s.dfsWe) :
+    ∃ stems, stems ≠ [] ∧ (stems, b) ∈ t.entries s [] ∧ (s.followLru stems).1 = some b ∧ w = (s.followLru stems).2.we :=
+  Traph.C07_carried_sound h hm
 
 end Traph.Props
